@@ -214,11 +214,17 @@ func GenPlan(t *rapid.T, cfg GenConfig) *Plan {
 		o.Grants = map[string]string{}
 		m := rapid.IntRange(13, 24).Draw(t, "nLongPrefix")
 		chain := rapid.Bool().Draw(t, "longPrefixChain")
+		leaky := rapid.Bool().Draw(t, "longPrefixLeaky")
 		prev := "world"
 		for i := 0; i < m; i++ {
 			d := cfg.Accounts[i%len(cfg.Accounts)]
 			if chain {
-				o.Postings = append(o.Postings, ledger.Posting{Source: prev, Destination: d, Asset: cfg.Assets[0], Amount: big.NewInt(10)})
+				// (leaky: every hop passes on a little less than it received, so each account keeps something)
+				amt := int64(10)
+				if leaky {
+					amt = int64(40 - i)
+				}
+				o.Postings = append(o.Postings, ledger.Posting{Source: prev, Destination: d, Asset: cfg.Assets[0], Amount: big.NewInt(amt)})
 				prev = d
 			} else {
 				o.Postings = append(o.Postings, ledger.Posting{Source: "world", Destination: d, Asset: cfg.Assets[0], Amount: big.NewInt(int64(1 + i))})
@@ -415,8 +421,12 @@ func GenPlan(t *rapid.T, cfg GenConfig) *Plan {
 		}
 	}
 	for i := 0; i < cfg.ReadFaults; i++ {
-		if rapid.IntRange(0, 2).Draw(t, "readFault") == 0 {
+		switch rapid.IntRange(0, 5).Draw(t, "readFault") {
+		case 0, 1:
 			p.ReadFaultAt = append(p.ReadFaultAt, rapid.IntRange(0, 30).Draw(t, "readFaultAt"))
+		case 2:
+			// the k-th read of one request: reaches the late reads of a request (after its write, say) however long the history
+			p.ReadFaultOf = append(p.ReadFaultOf, [2]int{rapid.IntRange(0, len(p.Ops)-1).Draw(t, "readFaultOp"), rapid.IntRange(0, 3).Draw(t, "readFaultNth")})
 		}
 	}
 	for i := 0; i < cfg.Cancels; i++ {
